@@ -72,6 +72,7 @@ func genC09(seed int64, tier string) *Scenario {
 	sameBase := r.Intn(2) == 0
 	manyRefs := r.Intn(2) == 0
 	classes := r.Intn(2) == 0
+	sc.Plugin = r.Intn(3) == 0
 	sc.Knobs["dupGlobal"], sc.Knobs["dupFunc"], sc.Knobs["sameBase"], sc.Knobs["nfiles"] = dupGlobal, dupFunc, sameBase, nfiles
 	var use strings.Builder
 	var requirers []string
